@@ -186,7 +186,8 @@ trait ValTx: ValT + Sized {
         } else {
             let f = f(self.try_as_f64()?);
             if f.is_finite() {
-                if isize::MIN as f64 <= f && f <= isize::MAX as f64 {
+                // `isize::MAX as f64` is rounded up to `isize::MAX + 1`
+                if isize::MIN as f64 <= f && f < isize::MAX as f64 {
                     Self::from(f as isize)
                 } else {
                     // print floating-point number without decimal places,
